@@ -104,7 +104,9 @@ def popHeapOk (j : Json) : Bool :=
           (fldBool oj "speciesOk").toOption.getD false &&
           (match fld oj "genome" with | .ok gj => ownBitsOk gj | .error _ => false)
 
-/-- sort ties that make the order produced by Go's `sort.Sort` on more than 12 elements unspecified -/
+/-- a sort of this epoch has a tie among MORE THAN 12 elements (pdqsort branch of `goSort`, where the order of equal
+    elements is decided by pdqsort's pivoting).  Only used to label the case class (`:tie13`) - such scenarios are
+    co-simulated bit-exactly like all others since the model sorts with `goSort`. -/
 def epochHasTie (o : EpochOpts Float) (p : Pop Float) : Bool :=
   match adjustAll o p.species with
   | .error _ => false
@@ -154,7 +156,7 @@ def hEpoch : Handler := fun j => do
   let landscape ← fldStr inp "landscape"
   let implErr := optStr out "err"
   let tie := epochHasTie o p
-  let cls := landscape ++ (if implErr.isSome then ":err" else "") ++ (if tie then ":tie" else "")
+  let cls := landscape ++ (if implErr.isSome then ":err" else "") ++ (if tie then ":tie13" else "")
   let n := o.popSize
   let heapIn := popHeapOk popJ
   let inputOk := heapIn && PopSpec.popInvB p n && p.species.all (fun s => s.orgs.all (fun x => decide (WF x.genome))) &&
@@ -171,7 +173,7 @@ def hEpoch : Handler := fun j => do
     -- known finding K1: populations whose members do not share their first gene (random topologies)
     let k1 := !popSharedHead p && (ie == "noGenes" || ie == "genesis:noGenes" || ie == "noTraitsOrGenes")
     let esig := if k1 then k1EpochSig else "epoch:error:" ++ ie
-    return { corr := corr || tie, spec := c02, nontrivial := false, cls := cls, tie := tie,
+    return { corr := corr, spec := c02, nontrivial := false, cls := cls,
              detail := if corr then "" else s!"impl epoch error {ie} (phase {(fldStr out "phase").toOption.getD "?"}) not reproduced by the model",
              props := [("C02", c02, "epoch failed on a valid population: " ++ ie, esig),
                        ("C01", c02, "epoch failed on a valid population: " ++ ie, esig)] }
@@ -183,8 +185,7 @@ def hEpoch : Handler := fun j => do
     let sortedIds ← arrInt (← fld out "sortedIds")
     let bestId ← fldInt out "bestSpeciesId"
     let (corr, detail) : Bool × String :=
-      if tie then (true, "")
-      else match m1 with
+      match m1 with
         | .error e => (false, s!"model prepare stops: {stopStr e}")
         | .ok ((p1, ex), rs1) =>
           match jsonDiff "afterPrepare" (jPop p1) (jPop ap) with
@@ -228,7 +229,7 @@ def hEpoch : Handler := fun j => do
     let c03why : String := if !inputOk then "" else PopSpec.innovWhy p a
     let structural := a.species.any (fun s => s.orgs.any (·.mutStructBaby))
     return { corr := corr, spec := c02why == "" && c01why == "" && c09why == "" && c10why == "" && c03why == "",
-             nontrivial := inputOk && a.species.length ≥ 1 && (structural || ap.species.length ≥ 2), cls := cls, tie := tie, detail := detail,
+             nontrivial := inputOk && a.species.length ≥ 1 && (structural || ap.species.length ≥ 2), cls := cls, detail := detail,
              props := [("C02", c02why == "", c02why, "epoch:popinv"), ("C01", c01why == "", c01why, c01sig),
                        ("C09", c09why == "", c09why, "epoch:quotas"), ("C10", c10why == "", c10why, "epoch:champion"),
                        ("C03", c03why == "", c03why, "epoch:innov"), ("C17", true, "", "")] }
